@@ -32,6 +32,10 @@ func (w *World) storeFip(ip string) *FipInfo { return decodeFip(w.K.Get("floatin
 
 func (w *World) oracleOnBind(p *PodInfo, m *simkube.Mutation) {
 	if len(p.IPs) == 0 {
+		// a pod that asked for a floating IP is bound with none: k requested ranges (or the implicit single one) got 0 IPs
+		if w.armed("C08", "C05", "C06") && p.App != nil {
+			w.fail(w.prop+".bound-without-ip", "bound-without-ip", "pod %s (requested ranges %v) was bound to %s by %s with no IP in its annotation", p.key(), p.Ranges, p.Node, m.By.Name)
+		}
 		return
 	}
 	if w.armed("C01") {
@@ -347,6 +351,8 @@ func (w *World) oracleC02Create(m *simkube.Mutation, ip string, oldF, newF *FipI
 		for _, uid := range id.UIDs {
 			if fw := w.M.filterWin[uid]; fw != nil {
 				fw.tookReserved = true
+				fw.tookIP = ip
+				w.S.Stat("c02.reserved-ip-taken-in-filter")
 			}
 		}
 	}
@@ -382,7 +388,16 @@ func (w *World) oracleC02Create(m *simkube.Mutation, ip string, oldF, newF *FipI
 			if pp := w.podByUID[uid]; pp == nil || w.gone[uid] || pp.finished() {
 				continue
 			}
-			if fw := w.M.filterWin[uid]; fw != nil && fw.closed && fw.hadReserve && !fw.tookReserved {
+			backInReserve := false
+			if fw := w.M.filterWin[uid]; fw != nil && fw.tookReserved {
+				// the reserved IP the pod was given in filter sits under the app's prefix again (taken back from a pod
+				// that is still there to be bound): the fresh IP is given while that very reservation exists
+				if f := w.storeFip(fw.tookIP); f != nil && f.Key == id.App.poolPrefix() {
+					backInReserve = true
+					w.S.Stat("c02.taken-ip-back-in-reserve-at-fresh-create")
+				}
+			}
+			if fw := w.M.filterWin[uid]; fw != nil && fw.closed && ((fw.hadReserve && !fw.tookReserved) || backInReserve) {
 				w.fail("C02.fresh-instead-of-reserved", "fresh-instead-of-reserved",
 					"pod %q got fresh IP %s (by %s) although its app held an unowned reserved IP under %q throughout its last filter call (steps %d..)",
 					newF.Key, ip, m.By.Name, id.App.poolPrefix(), fw.start)
@@ -539,6 +554,11 @@ func (w *World) quiescentChecks(tag string, afterResync bool) {
 			w.evalMemcheck(tag)
 		}
 	}
+	if w.armed("C08") && tag == "q1" {
+		// "none of the k IPs stays allocated" holds for the tables too: an IP that a failed request left allocated in
+		// memory only is as unusable as one left in the store
+		w.evalMemcheck(tag)
+	}
 	if afterResync && w.armed("C03", "C05") {
 		w.leakCheck()
 	}
@@ -658,7 +678,9 @@ func (w *World) oracleC08Failed(br *bindReport) {
 	// only failures of the allocation itself are in the property's scope: a range that cannot be satisfied or a
 	// FloatingIP object creation that failed. A failing pods/binding call, cloud-provider call or attribute update of
 	// a pre-owned IP keeps the allocation for the retry by design.
-	inScope := strings.Contains(br.Err, "no enough available ips") || strings.Contains(br.Err, "enumerated fault")
+	// ... or the documented refusal to reuse an IP that still carries the previous incarnation's UID ("if that is not
+	// possible": nothing may have been allocated for the other ranges by then)
+	inScope := strings.Contains(br.Err, "no enough available ips") || strings.Contains(br.Err, "enumerated fault") || strings.Contains(br.Err, "waiting for delete event")
 	if strings.Contains(br.Err, "update pod ") || strings.Contains(br.Err, "failed to assign ip") || strings.Contains(br.Err, "release policy") {
 		inScope = false
 	}
